@@ -39,12 +39,34 @@ impl<'a> Gen<'a> {
         // fault enumeration: the same operation is attempted with the 1st, 2nd, … bank call failing,
         // until an attempt runs without reaching the armed call (that attempt is the real one)
         let mut k = 1u64;
+        // fault positions at which the attempt was rejected, since the state last changed
+        let mut rejected_at: Vec<u64> = vec![];
         loop {
             self.run.step(&format!("fault {}", k), self.o);
+            let before = self.run.h.last_obs.clone();
             let res = self.run.step(&line, self.o);
             let hit = self.run.h.last_calls >= k;
             let kind = crate::monitors::parse_tx(&line).map(|t| t.kind).unwrap_or("send".into());
             self.o.line(&format!("mon_fault_outcome {} {} {}", hit as u8, (res == "ok") as u8, kind), "ok");
+            if hit && res != "ok" { rejected_at.push(k); }
+            if hit && res == "ok" { rejected_at.clear(); }
+            if !hit && res == "ok" && (kind == "createfarm" || kind == "closefarm") {
+                // C20: the refunds of the farms this transaction closes are its LAST bank calls; an attempt in which
+                // one of THEM was made to fail must not have been rejected (the failure of such a refund is tolerated)
+                let after = &self.run.h.last_obs;
+                let refunds = before.farms.iter().filter(|f| {
+                    let gone = match after.farms.iter().find(|g| g.identifier == f.identifier) {
+                        None => true,
+                        Some(g) => g.owner != f.owner || g.start_epoch != f.start_epoch || g.claimed_amount < f.claimed_amount,
+                    };
+                    gone && f.farm_asset.amount > f.claimed_amount
+                }).count() as u64;
+                let calls = self.run.h.last_calls;
+                if refunds > 0 {
+                    let blocked = rejected_at.iter().filter(|x| **x + refunds > calls && **x <= calls).count();
+                    self.o.line(&format!("mon_refund_tolerated {} {} {} {}", kind, calls, refunds, blocked), "ok");
+                }
+            }
             if !hit || k >= 14 { return res; }
             k += 1;
         }
@@ -1067,10 +1089,13 @@ pub fn run_twin(seed: u64, cases: u64, o: &mut Out) {
             let res = p.assets[oi].amount.u128();
             let a = (res / [10_000u128, 1000, 100, 20][r.below(4) as usize] + 1 + r.below(2) as u128).max(2);
             let ss = ["-", "500000000000000000", "1000000000000000000"][r.below(3) as usize];
+            // the deposit leg's own tolerance: absent, or tighter / looser than the pool's fees (the proceeds of the
+            // swapped half are short of the pool ratio by the fees, so a tight tolerance refuses the second step)
+            let ls = ["-", "-", "10000000000000000", "50000000000000000", "300000000000000000", "0", "2000000000000000"][r.below(7) as usize];
             let (unlock, lockid) = match r.below(3) { 0 => ((DAY * (1 + r.below(100))).to_string(), "-".to_string()), 1 => ((DAY * (1 + r.below(100))).to_string(), "tw".to_string()), _ => ("-".into(), "-".into()) };
             let lp = run_a.h.w.cd(&p.lp_denom);
             // A: single-asset deposit
-            let res_a = run_a.step(&format!("tx {} 1 {} {} pm provide {} - {} - {} {}", user, od, a, pid, ss, unlock, lockid), o);
+            let res_a = run_a.step(&format!("tx {} 1 {} {} pm provide {} {} {} - {} {}", user, od, a, pid, ls, ss, unlock, lockid), o);
             o.raw("end");
             // B: swap half, then deposit half + proceeds
             o.raw(&format!("begin {}", 2 * i + 1));
@@ -1083,7 +1108,7 @@ pub fn run_twin(seed: u64, cases: u64, o: &mut Out) {
             let mut funds = vec![coin(half, od.clone()), coin(proceeds, ad.clone())];
             funds.sort_by(|x, y| x.denom.cmp(&y.denom));
             let res_b2 = if res_b1 == "ok" {
-                run_b.step(&format!("tx {} {} pm provide {} - {} - {} {}", user, coins_str(&funds), pid, ss, unlock, lockid), o)
+                run_b.step(&format!("tx {} {} pm provide {} {} {} - {} {}", user, coins_str(&funds), pid, ls, ss, unlock, lockid), o)
             } else { "skip".to_string() };
             let (oa, ob2) = (&run_a.h.last_obs, &run_b.h.last_obs);
             let pa = oa.pools.iter().find(|x| x.pool_info.pool_identifier == pid).unwrap();
